@@ -1,2 +1,219 @@
+import PelModel.Plugins
+import PelModel.PelSpec
+import PelProofs.Plugins
+import PelGen.Live
+/-
+  C18 — Parser modules are chosen by creator/component, fed the right data, contained.
+  The import system is an environment `module name → behaviour`; statements quantify over ALL environments.
+-/
 namespace Pel.C18
+
+/-! Pins -/
+theorem pin_subtypes :
+    (∀ v ∈ Live.m2c00_SUB_TYPE_HLOG, v = SUB_HLOG) ∧ (∀ v ∈ Live.m2c00_SUB_TYPE_ILOG, v = SUB_ILOG) ∧
+    (∀ v ∈ Live.m2c00_SUB_TYPE_TRACE, v = SUB_TRACE) := by decide
+theorem pin_drawer_versions : ∀ v ∈ Live.drawerVersions, v = [(s "mex", 1), (s "nimitz", 2)] := by decide
+theorem pin_ud_formats :
+    (∀ v ∈ Live.udf_json, v = 1) ∧ (∀ v ∈ Live.udf_text, v = 3) := by decide
+
+/-- ★ the user-data parser consulted is `udparsers.<creator, lower case><component id in 4 lower-case hex digits>` -/
+theorem ud_module_name (creator : Text) (comp : Nat) (hc : comp < 65536) :
+    udModuleName creator comp = creator.map toLowerAscii ++ hexFixL 4 comp := by
+  unfold udModuleName
+  rw [List.map_append, map_lower_idem, fmtHex_eq_hexFix 4 comp (by simpa using hc) (by decide), hexFix_map_lower]
+
+/-- ★ … and no other module matters: the result depends on the environment only through that one module -/
+theorem ud_only_that_module (T : Tables) (env env' : UdEnv) (allow : Bool) (creator : Text) (comp sub ver : Nat) (data : Bytes)
+    (h : env (udModuleName creator comp) = env' (udModuleName creator comp)) :
+    parseUserData T env allow creator comp sub ver data = parseUserData T env' allow creator comp sub ver data := by
+  unfold parseUserData
+  rw [h]
+
+/-- ★ the module receives that section's subtype, version and exact payload (the echo module shows what it was given) -/
+theorem ud_arguments (T : Tables) (env : UdEnv) (creator : Text) (comp sub ver : Nat) (data : Bytes)
+    (hnb : ¬ (lookupT T.creators creator = some (s "BMC") ∧ comp = 0x2000))
+    (he : env (udModuleName creator comp) = .echo) :
+    ∃ v, parseUserData T env true creator comp sub ver data = v ∧
+      v = UdValue.json (.obj [(s "subType", .num sub), (s "version", .num ver), (s "data", .str (bytesHexL data))]) := by
+  refine ⟨_, rfl, ?_⟩
+  unfold parseUserData
+  rw [if_neg hnb, he]
+  rfl
+
+/-- the SRC parser module consulted: `<creator>src`; for BMC SRCs the component named by characters 4..5 of the reference
+    code, or the hostboot parser for BC codes -/
+def srcModuleName (creator ascii : Text) : Text :=
+  if creator.map toLowerAscii = s "o" then
+    (if ascii.take 2 = s "BC" then s "bsrc" else s "o" ++ ((ascii.drop 4).take 2).map toLowerAscii ++ s "00")
+  else creator.map toLowerAscii ++ s "src"
+
+/-- ★ the SRC details depend on the environment only through that module -/
+theorem src_only_that_module (env env' : SrcEnv) (creator ascii : Text) (hexwords : List Text)
+    (h : env.src (srcModuleName creator ascii) = env'.src (srcModuleName creator ascii)) :
+    (match srcDetails env creator ascii hexwords, srcDetails env' creator ascii hexwords with
+      | .none, .none => True
+      | .some a, .some b => a = b
+      | .fail, .fail => True
+      | .unsupported, .unsupported => True
+      | _, _ => False) := by
+  have e1 : ∀ e : SrcEnv, srcDetails e creator ascii hexwords =
+      (match e.src (srcModuleName creator ascii) with
+        | .absent => .none
+        | .raises => .none
+        | .echo => .some (.obj [kv "refcode" (jstr ascii), kv "words" (.arr (hexwords.map jstr))])
+        | .returnsText t =>
+          if t = [] ∨ t = s "null" then .none else
+          match loads t with
+          | .ok j => .some j
+          | .bad => .fail
+          | .unsupported => .unsupported) := fun _ => rfl
+  rw [e1 env, e1 env', h]
+  cases env'.src (srcModuleName creator ascii) with
+  | absent => trivial
+  | raises => trivial
+  | echo => simp
+  | returnsText t =>
+    by_cases ht : t = [] ∨ t = s "null"
+    · simp only [if_pos ht]
+    · simp only [if_neg ht]
+      cases loads t <;> simp
+
+/-- ★ the SRC parser receives the reference code and hex words 2..9 in order (eight words, zero-filled beyond the word count) -/
+theorem src_arguments (env : SrcEnv) (creator ascii : Text) (hexwords : List Text)
+    (he : env.src (srcModuleName creator ascii) = .echo) :
+    ∃ j, srcDetails env creator ascii hexwords = .some j ∧
+      j = .obj [(s "refcode", .str ascii), (s "words", .arr (hexwords.map .str))] := by
+  refine ⟨_, ?_, rfl⟩
+  have e1 : srcDetails env creator ascii hexwords =
+      (match env.src (srcModuleName creator ascii) with
+        | .absent => .none
+        | .raises => .none
+        | .echo => .some (.obj [kv "refcode" (jstr ascii), kv "words" (.arr (hexwords.map jstr))])
+        | .returnsText t =>
+          if t = [] ∨ t = s "null" then .none else
+          match loads t with
+          | .ok j => .some j
+          | .bad => .fail
+          | .unsupported => .unsupported) := rfl
+  rw [e1, he]
+  rfl
+
+theorem src_eight_words (x : ASrc) (hw : x.wordCount ≤ 9) :
+    let w (i : Nat) : Nat := x.words.getD i 0
+    let hexw := ((List.range (x.wordCount + 1)).drop 2).map fun i => hexFix 8 (w (i - 2))
+    (hexw ++ List.replicate (8 - hexw.length) (s "00000000")).length = 8 ∧
+    ∀ i, i < hexw.length → (hexw ++ List.replicate (8 - hexw.length) (s "00000000"))[i]? = some (hexFix 8 (x.words.getD i 0)) := by
+  intro w hexw
+  have hlen : hexw.length = x.wordCount - 1 := by
+    simp only [hexw, List.length_map, List.length_drop, List.length_range]; omega
+  refine ⟨by rw [List.length_append, List.length_replicate]; omega, ?_⟩
+  intro i hi
+  rw [List.getElem?_append_left hi]
+  have hi2 : 2 + i < x.wordCount + 1 := by omega
+  simp only [hexw, List.getElem?_map, List.getElem?_drop, List.getElem?_range hi2, Option.map_some, w]
+  congr 3
+  omega
+
+/-- ★ containment (SRC): a parser that raises, is absent, or returns '' / 'null' yields no "SRC Details" – nothing else changes -/
+theorem src_contained (T : Tables) (env : SrcEnv) (h : AHdr) (creator : Text) (x : ASrc)
+    (hb : env.src (srcModuleName creator x.ascii) = .raises ∨ env.src (srcModuleName creator x.ascii) = .absent ∨
+          env.src (srcModuleName creator x.ascii) = .returnsText [] ∨ env.src (srcModuleName creator x.ascii) = .returnsText (s "null")) :
+    ∀ l, renderSrc T env h creator true x = .obj l → ∀ kv ∈ l, kv.1 ≠ s "SRC Details" := by
+  intro l hl
+  have e1 : ∀ hw, srcDetails env creator x.ascii hw =
+      (match env.src (srcModuleName creator x.ascii) with
+        | .absent => .none
+        | .raises => .none
+        | .echo => .some (.obj [kv "refcode" (jstr x.ascii), kv "words" (.arr (hw.map jstr))])
+        | .returnsText t =>
+          if t = [] ∨ t = s "null" then .none else
+          match loads t with
+          | .ok j => .some j
+          | .bad => .fail
+          | .unsupported => .unsupported) := fun _ => rfl
+  have hnone : ∀ hw, srcDetails env creator x.ascii hw = .none := by
+    intro hw
+    rw [e1]
+    rcases hb with hb | hb | hb | hb <;> rw [hb] <;> simp
+  unfold renderSrc at hl
+  simp only [hnone, if_true] at hl
+  injection hl with hl
+  subst hl
+  simp only [List.forall_mem_append, List.forall_mem_cons, List.forall_mem_map, hdrMembers, kv]
+  have hnil : ∀ (x : Text × J), x ∈ ([] : List (Text × J)) → x.fst ≠ s "SRC Details" := fun _ h => nomatch h
+  refine ⟨⟨⟨⟨⟨⟨⟨⟨by decide, by decide, by decide, hnil⟩, by decide, by decide, by decide, by decide, by decide, hnil⟩, ?_⟩, ?_⟩,
+    by decide, by decide, hnil⟩, fun j _ => hexword_ne_srcDetails _⟩, ?_⟩, hnil⟩
+  · split
+    · simp only [List.forall_mem_cons]; exact ⟨by decide, by decide, hnil⟩
+    · exact hnil
+  · split
+    · simp only [List.forall_mem_cons]; exact ⟨by decide, by decide, hnil⟩
+    · exact hnil
+  · split
+    · exact hnil
+    · simp only [List.forall_mem_cons]; exact ⟨by decide, hnil⟩
+
+/-- ★ with --skip-parser-plugins no parser module is consulted: every environment gives the same result -/
+theorem skip_plugins_ud (T : Tables) (env env' : UdEnv) (creator : Text) (comp sub ver : Nat) (data : Bytes) :
+    parseUserData T env false creator comp sub ver data = parseUserData T env' false creator comp sub ver data := by
+  unfold parseUserData
+  simp
+theorem skip_plugins_src (T : Tables) (env env' : SrcEnv) (h : AHdr) (creator : Text) (x : ASrc) :
+    renderSrc T env h creator false x = renderSrc T env' h creator false x := by
+  unfold renderSrc renderCallout procDescription
+  simp
+
+/-- ★ the I/O-drawer plugin always returns a JSON object -/
+theorem m2c00_object (drawers : List DrawerTables) (sub ver : Nat) (data : Bytes) (j : J)
+    (h : m2c00 drawers sub ver data = some j) : ∃ l, j = .obj l := by
+  unfold m2c00 at h
+  simp only at h
+  split at h
+  · split at h
+    · exact ⟨_, (Option.some.inj h).symm⟩
+    · split at h
+      · exact ⟨_, (Option.some.inj h).symm⟩
+      · exact ⟨_, (Option.some.inj h).symm⟩
+  · split at h
+    · split at h
+      · exact ⟨_, (Option.some.inj h).symm⟩
+      · split at h
+        · exact ⟨_, (Option.some.inj h).symm⟩
+        · rw [Option.map_eq_some_iff] at h
+          obtain ⟨ls, _, h⟩ := h
+          exact ⟨_, h.symm⟩
+    · split at h
+      · split at h
+        · exact ⟨_, (Option.some.inj h).symm⟩
+        · split at h
+          · exact ⟨_, (Option.some.inj h).symm⟩
+          · rw [Option.map_eq_some_iff] at h
+            obtain ⟨ls, _, h⟩ := h
+            exact ⟨_, h.symm⟩
+      · exact ⟨_, (Option.some.inj h).symm⟩
+
+/-- ★ … routing subtypes 72 / 73 / 84 to the history-log / ILOG / trace decoders of the drawer type given by the version -/
+theorem m2c00_routing (drawers : List DrawerTables) (ver : Nat) (data : Bytes) (d : DrawerTables) (hne : data ≠ [])
+    (hd : drawers.find? (fun d => d.version == ver) = some d) :
+    m2c00 drawers 72 ver data = some (.obj [(s "History Log", linesJ (parseHlog d.fields data))]) ∧
+    m2c00 drawers 73 ver data = (parseIlog d.pte data).map (fun ls => .obj [(s "ILOG", linesJ ls)]) ∧
+    m2c00 drawers 84 ver data = (parseTrace d.strs data).map (fun ls => .obj [(s "Trace", linesJ ls)]) := by
+  unfold m2c00
+  simp only [hd, SUB_HLOG, SUB_ILOG, SUB_TRACE, if_neg hne]
+  simp
+
+theorem m2c00_other_subtype (drawers : List DrawerTables) (sub ver : Nat) (data : Bytes) (hne : data ≠ [])
+    (h1 : sub ≠ 72) (h2 : sub ≠ 73) (h3 : sub ≠ 84) :
+    m2c00 drawers sub ver data = some (.obj [(s "Data", hexdumpJ data)]) := by
+  unfold m2c00
+  simp only [SUB_HLOG, SUB_ILOG, SUB_TRACE, if_neg hne, if_neg h1, if_neg h2, if_neg h3]
+
+theorem m2c00_unknown_version (drawers : List DrawerTables) (sub ver : Nat) (data : Bytes) (hne : data ≠ [])
+    (hs : sub = 72 ∨ sub = 73 ∨ sub = 84) (hd : drawers.find? (fun d => d.version == ver) = none) :
+    ∃ msg, m2c00 drawers sub ver data = some (.obj [(s "Error", .str msg), (s "Data", hexdumpJ data)]) := by
+  refine ⟨s "Unable to format data: Unexpected user data section version: " ++ natDec ver, ?_⟩
+  unfold m2c00
+  simp only [hd, SUB_HLOG, SUB_ILOG, SUB_TRACE, if_neg hne]
+  rcases hs with hs | hs | hs <;> subst hs <;> simp
+
 end Pel.C18
